@@ -467,7 +467,7 @@ func verifH_C02_positions() {
 	case 15:
 		resolved = o.Callbacks["cb2"].Value.Value("{$request.body#/u}").Post.Responses.Value("200").Value != nil
 	}
-	verifKnown("C02-nested-examples-and-encoding-headers-not-resolved", pos == 2 || pos == 7 || pos == 11)
+
 	verifAssert(resolved, "C02 positions: after a successful load every reference is resolved")
 	verifReach("end")
 }
@@ -975,8 +975,8 @@ func verifH_C02_content_positions() {
 	}
 	mt := c["application/json"]
 	// encoding headers are not visited by the loader at all (known finding)
-	verifKnown("C02-nested-examples-and-encoding-headers-not-resolved", pos == 3)
+
 	verifAssert(mt != nil && mt.Schema != nil && mt.Schema.Value != nil && mt.Schema.Value.Type.Is("string") && mt.Schema.Value.MinLength == 3, "C02 content positions: a schema reference inside content is resolved to the schema it designates")
-	verifKnown("C02-nested-examples-and-encoding-headers-not-resolved", false)
+
 	verifReach("end")
 }
